@@ -503,6 +503,7 @@ func errDisciplineSeen(c *Check) {
 	sharedTableSeen(c, fis)
 	failedResultSeen(c, fis)
 	emptyRangeSeen(c, fis)
+	directiveDestinationsSeen(c, fis)
 	c.Rule("E4", "the value of a two-valued type assertion, map lookup or channel receive is not read where its ok flag is false (there it is the zero value: a nil connection, an empty entitlement, reply code 0)", 0)
 	for _, fi := range fis {
 		obs := commaOkSites(c.P, fi)
